@@ -241,6 +241,16 @@ func casesC06(g *Gen) []*Case {
 		c.Oracle = expectResults(map[int]func(string) string{0: wantErr("")})
 		cs = append(cs, c)
 	}
+	// the name in @use (and in @component) is a path below the template directory: other spellings of the same path name the same file
+	for i, sp := range []string{"/layouts/main", "./layouts/main", "layouts//main", "~/main", "layouts/./main", "layouts/../layouts/main", "//layouts///main", "x/../layouts/main"} {
+		t := newTree()
+		t.files["tpl/layouts/main.tw"] = `<t>@reserve("title")</t><m>@reserve("b")</m>`
+		t.files["tpl/components/card.tw"] = `[{{ v }}|@slot]`
+		t.files["tpl/home.tw"] = `@use("` + sp + `")@insert("title", "T")@insert("b")Hi@component("` + strings.Replace(strings.Replace(sp, "layouts", "components", -1), "main", "card", -1) + `", {v: 1})@slot s@end@end@end`
+		c := histCase("layout_name_spellings", t, []string{opNew("tpl", ".tw", "", i%2 == 1), opStr("home", nil)}, "NewTemplate, String(home); the layout and the component are named "+sp)
+		c.Oracle = expectResults(map[int]func(string) string{0: wantNewOK, 1: wantOK("<t>T</t><m>Hi[1| s]</m>")})
+		cs = append(cs, c)
+	}
 	// a tilde that is not the first character of a name is an ordinary character
 	{
 		t := newTree()
